@@ -38,11 +38,12 @@ FLOOR = {"quick": 300, "thorough": 4000}
 EXHAUSTIVE = "part A: every L in 1..200 at every site (part B is sampled)"
 
 
-def _m(v, name="f"):
+def _m(v, name="f", extra_span=0):
+    """extra_span: lines of the span that do not count (blank / comment lines, nested functions)"""
     from codelimit.common.Location import Location
     from codelimit.common.Measurement import Measurement
 
-    return Measurement(name, Location(3, 5), Location(3 + max(v, 1) - 1, 2), v)
+    return Measurement(name, Location(3, 5), Location(3 + max(v, 1) - 1 + extra_span, 2), v)
 
 
 def _color(style):
@@ -58,7 +59,7 @@ def _render(fn):
     return buf.getvalue()
 
 
-def check_sites(L):
+def check_sites(L, extra_span=0):
     """All per-value sites for one length. -> None | (bucket, message)"""
     from pathlib import Path
 
@@ -72,7 +73,7 @@ def check_sites(L):
     from codelimit.common.report.Report import Report
 
     cat = category(L)
-    m = _m(L)
+    m = _m(L, extra_span=extra_span)
     want_profile = [0, 0, 0, 0]
     want_profile[cat] = L
     want_count = [0, 0, 0, 0]
@@ -166,6 +167,12 @@ def enum_sites(col, values):
             col.fail({"kind": "sites", "L": L}, res[0], res[1])
         elif near:
             col.sample({"kind": "sites", "L": L})
+        for extra in (1, 35, 70):  # the span of a function may be longer than its length: only the length decides
+            res = check_sites(L, extra)
+            n += 1
+            nt += near
+            if res:
+                col.fail({"kind": "sites", "L": L, "extra_span": extra}, res[0] + ":span>length", res[1] + f" (span {L + extra} lines)")
     col.bulk(n, nt)
     col.label("A:lengths", )
 
@@ -239,7 +246,7 @@ def run_check_case(case):
 
 def run_case(case):
     if case["kind"] == "sites":
-        return check_sites(case["L"])
+        return check_sites(case["L"], case.get("extra_span", 0))
     return run_check_case(case)
 
 
